@@ -336,3 +336,20 @@ def signal_identity(O):
             continue
         R.prove(O, p, z3.Implies(eng.scalar(p.ret, "bool"), z3.And(na == nb, ba == bb)),
                 "signals that compare equal have the same name and width")
+
+
+@obligation("C03/no-state-outside-the-iterator", profiles=("dev",),
+            desc="TestCase has no interior mutability and the crate keeps no mutable global state: attribution positions come from this run's own first answer "
+                 "(type-level facts read from the MIR and the struct definition)")
+def no_state_outside(O):
+    from . import C15, dri
+    C15.no_shared_state_core(O, rep())
+
+
+@obligation("C03/glue-stores-nothing", profiles=("dev",),
+            desc="next / handle_io store nothing into the iterator themselves and call nothing but get_row / handle_io / "
+                 "into_data_row resp. the driver, set_outputs and extract_output_values, on every path: no cache of answers, "
+                 "no skipped call, nothing remembered between rows outside those functions")
+def glue_stores_nothing(O):
+    from . import dri
+    dri.glue_keeps_state(O, rep())
